@@ -62,6 +62,18 @@ impl Ctx {
     }
 
     pub fn sections(&self) -> Vec<(&'static str, u64)> {
+        let all = self.all_sections();
+        // development aid: RSSL_SIM_ONLY=a,b restricts a run to the named sections
+        match std::env::var("RSSL_SIM_ONLY") {
+            Ok(only) if !only.is_empty() => all
+                .into_iter()
+                .map(|(n, c)| if only.split(',').any(|o| o == n) { (n, c) } else { (n, 0) })
+                .collect(),
+            _ => all,
+        }
+    }
+
+    fn all_sections(&self) -> Vec<(&'static str, u64)> {
         match self.check.as_str() {
             "C07" => crate::c07::sections(self),
             "C08" => crate::c08::sections(self),
